@@ -36,6 +36,12 @@ def build(tier, seed):
                          [(1, 2, 0), (1, 0, 0), (2, 4, 0), (2, 4, -1), (3, 6, 0), (3, 6, -2), (3, 6, -1)]):
         I.append(rcv("c04_reack_w%d_f%d_r%d" % (w, flen, -rel), w, 2, 0, flen, oracle=ro | omask("REACK"),
                      events=[(K_DATA, rel, 2, 0), (K_TIMEOUT, None, 0, 6)], tmo=5, b0=(9, 9)))
+    # the re-sent ACK may be lost as well: two stall cycles (duplicate, time-out, duplicate, time-out)
+    # (two DATA events in one run: beyond the quick budget - thorough tier only, reported "not explored" when it does not finish)
+    for w, flen in ([] if tier == "quick" else [(1, 2), (2, 4)]):
+        I.append(rcv("c04_reack_twice_w%d_f%d" % (w, flen), w, 2, 0, flen, oracle=ro | omask("REACK", "REACK2"), tmo=5, b0=(9, 9),
+                     events=[(K_DATA, 0, 2, 0), (K_TIMEOUT, None, 0, 6), (K_DATA, 0, 2, 0), (K_TIMEOUT, None, 0, 6)],
+                     timeout=2400, mem_kb=20 * 1024 * 1024))
     I += c18.remove_equiv("quick")
     return Check("C04", tier, I, seed, functions=WORKER_FUNCS_SND + WORKER_FUNCS_RCV, assumptions=WORKER_ASSUMPTIONS + [
         "bounded liveness is decided as local progress obligations from every injected state (one fault event each): time-out => retransmission and no give-up before 6 consecutive failures; "
